@@ -19,21 +19,21 @@ theorem C16_table_complete (exportDir : Path) (ts : List Torrent) (id0 : Nat) (t
         ∃ e ∈ buildTable exportDir ts id0, e.infoHash = t.infoHash ∧ e.fileIndex = 0) ∧
     (∀ fs, t.info.files = some fs → ∀ k, k < fs.length →
         ∃ e ∈ buildTable exportDir ts id0, e.infoHash = t.infoHash ∧ e.fileIndex = k) := by
-  sorry
+  exact RunH.buildTable_complete exportDir ts id0 t ht
 
 /-- converting the pieces of loadable torrents to work never fails (`lookup.get(..).unwrap()` and the layout
     are total), provided the table was built from (a superset of) those torrents -/
 theorem C16_work_total (H : Bytes → Bytes) (exportDir : Path) (all ts : List Torrent) (c : Cache) (obs : List (Nat × List Path))
     (hsub : ∀ t ∈ ts, t ∈ all) (hload : ∀ t ∈ ts, Loadable H t) :
     (convertPiecesToWork (populateSearches c obs (buildTable exportDir all 0)).1 ts).isSome = true := by
-  sorry
+  exact RunH.convert_isSome H exportDir all ts c obs hsub hload
 
 /-- every work item of a loadable torrent has positive length unless it is padding-only, and a single-segment
     item is never an empty non-padding segment (the side condition `hsingle` of C16_piece_total_partial) -/
 theorem C16_work_single (H : Bytes → Bytes) (table : List TEntry) (t : Torrent) (ws : List Work)
     (hload : Loadable H t) (hw : workOfTorrent table t = some ws) :
     ∀ w ∈ ws, ∀ s, w.segs = [s] → s.len ≠ 0 := by
-  sorry
+  exact RunH.workOfTorrent_single H table t ws hload hw
 
 /-- run level: a run on loadable torrents never ends in `panic`, provided any byte string hashing to a piece
     hash has that piece's length -/
@@ -41,6 +41,24 @@ theorem C16_run_total_partial (H : Bytes → Bytes) (inp : RunIn)
     (hload : ∀ t ∈ inp.torrents, Loadable H t)
     (hlen : ∀ w ∈ (run H inp).work, ∀ b, H b = w.hash → b.length = (w.segs.map (·.len)).sum) :
     (run H inp).result ≠ .panic := by
-  sorry
+  rcases RunH.run_cases H inp with h | h | ⟨c, hnone⟩ | ⟨c, st, ordered, hwork, hord, hres⟩
+  · rw [h]; intro hc; cases hc
+  · rw [h]; intro hc; cases hc
+  · exfalso
+    have hsome := C16_work_total H inp.exportDir.path _ (dedupTorrents (sortTorrents inp.torrents)) c inp.searchObs
+      (fun t ht => ht)
+      (fun t ht => hload t ((RB.mem_sortTorrents _ _).1 (RB.dedupTorrents_mem _ t ht)))
+    rw [hnone] at hsome
+    cases hsome
+  · have hnp : ∀ w ∈ ordered, ∀ st, (solvePiece H st w).2 ≠ .panic := by
+      intro w hw st'
+      have hwm := hord w hw
+      apply C16_piece_total_partial H st' w (hlen w hwm)
+      intro s hs
+      obtain ⟨t, ht, wt, hwt, hwin⟩ := RunH.convert_mem hwork w hwm
+      exact .inl (C16_work_single H _ t wt
+        (hload t ((RB.mem_sortTorrents _ _).1 (RB.dedupTorrents_mem _ t ht))) hwt w hwin s hs)
+    rw [hres, RunH.solveAll_no_panic H ordered hnp]
+    intro hc; cases hc
 
 end TB
